@@ -731,7 +731,11 @@ func (loc *Location) ListRules(ctx *Context, includeInherited bool) ([]string, e
 
 	sr, err := loc.SearchFacts(ctx, Map{"rule": "?rule"}, includeInherited)
 
-	acc := make([]string, 0, len(sr.Found))
+	n := 0
+	if sr != nil {
+		n = len(sr.Found)
+	}
+	acc := make([]string, 0, n)
 	if err == nil {
 		for _, srs := range sr.Found {
 			// ToDo: Be more careful
